@@ -12,7 +12,8 @@ def run(v):
     # Transport.tla: every short sequence of websocket messages (valid / undecodable / empty / not BINARY) x every ending, on every message transport class
     transportmodel.check(v, 'C12')
     # the routing layer: every request entry point of a real RoutingRequestHandler with damaged routing / composite metadata
-    from . import routinghostile
+    from . import routinghostile, taggingmodel
+    taggingmodel.check(v, 'C12')          # Tagging.tla: the tag list as a function of arbitrary bytes (every body up to 4 / 5 bytes)
     routinghostile.check(v, 'C12')
     mc.run_for(v, 'C12')
     scns, res = conn.check(v, 'C12', families.FAMILIES['C12'], extra_clause_props=('C01',))
